@@ -1048,20 +1048,82 @@ def _gradient_path(ctx, fn, V, F, loop, path, kinds):
                     origin.add(rel.id)
             elif isinstance(v, ast.Name) and v.id in verts and au.src(face) != fi:
                 bad.append(f"the coordinates of vertex {v.id} are projected in the basis of `{au.src(face)}`, not of the face being assembled")
-    if len(origin) > 1:
-        und.append("local coordinates are taken relative to several origins")
-    missing = [v for v in verts if v not in coords and v not in origin]
-    cname = {n: (v, k) for v, ns in coords.items() for k, n in enumerate(ns)}
+    # names bound through nested unpacking  (xA, yA), (xB, yB), (xC, yC) = <tuple of pairs>  are looked through
+    leaf, dup = {}, set()
+
+    def leaves(t, v):
+        if isinstance(t, ast.Name):
+            yield t.id, v
+        elif isinstance(t, (ast.Tuple, ast.List)) and isinstance(v, (ast.Tuple, ast.List)) and len(t.elts) == len(v.elts):
+            for a, c in zip(t.elts, v.elts):
+                yield from leaves(a, c)
+        elif isinstance(t, (ast.Tuple, ast.List)) and isinstance(v, (ast.GeneratorExp, ast.ListComp)) and len(v.generators) == 1 and not v.generators[0].ifs \
+                and isinstance(v.generators[0].target, ast.Name):
+            items = he_norm.lit_items(v.generators[0].iter)
+            if items is not None and len(items) == len(t.elts):
+                for a, it in zip(t.elts, items):
+                    yield from leaves(a, sym.subst(v.elt, {v.generators[0].target.id: it}))
+    for s in au.stmts(loop.body):
+        if isinstance(s, ast.Assign) and len(s.targets) == 1 and isinstance(s.targets[0], (ast.Tuple, ast.List)) \
+                and any(isinstance(x, (ast.Tuple, ast.List)) for x in s.targets[0].elts):
+            for nm, v in leaves(s.targets[0], s.value):
+                if nm in leaf:
+                    dup.add(nm)
+                leaf[nm] = b.resolve(v, at=s, keep=tuple(verts) + (fi,))
+    for nm in dup:
+        leaf.pop(nm, None)
+    rowtexts = {f"{LF.seq.base}[{fi}]"} | {r for r in LF.names if LF.names[r][0] == "at"}
+
+    def vert_name(x):
+        if isinstance(x, ast.Name) and x.id in verts:
+            return x.id
+        if isinstance(x, ast.Subscript) and isinstance(x.slice, ast.Constant) and x.slice.value in (0, 1, 2) and au.src(x.value) in rowtexts:
+            return verts[x.slice.value]
+        return None
+
+    def inline_coord(x):
+        """atom of  conn.project(P, face)[k]  /  .x  /  .y  written in place (no intermediate name)"""
+        k = None
+        if isinstance(x, ast.Subscript) and isinstance(x.slice, ast.Constant) and x.slice.value in (0, 1):
+            k, c = x.slice.value, x.value
+        elif isinstance(x, ast.Attribute) and x.attr in ("x", "y"):
+            k, c = "xy".index(x.attr), x.value
+        if k is None or not (isinstance(c, ast.Call) and au.call_tail(c) == "project" and len(c.args) == 2):
+            return None
+        p, face = c.args
+        v = he_seq.vertex_index(p)
+        rel = None
+        if v is None and isinstance(p, ast.BinOp) and isinstance(p.op, ast.Sub):
+            v, rel = he_seq.vertex_index(p.left), he_seq.vertex_index(p.right)
+        vn, rn = (vert_name(v) if v is not None else None), (vert_name(rel) if rel is not None else None)
+        if vn is None or (rel is not None and rn is None):
+            return None
+        if au.src(face) != fi:
+            bad.append(f"the coordinates of vertex {vn} are projected in the basis of `{au.src(face)}`, not of the face being assembled")
+            return None
+        coords.setdefault(vn, (f"x_{vn}", f"y_{vn}"))
+        if rn is not None:
+            origin.add(rn)
+        return coords[vn][k]
     out = {}
 
     def cpoly(e):
+        for _ in range(4):
+            used = au.names(e) & set(leaf)
+            if not used:
+                break
+            e = sym.subst(e, {k: leaf[k] for k in used})
+
         def atom(x):
-            if isinstance(x, ast.Name) and x.id in cname:
-                return x.id
-            return None
+            if isinstance(x, ast.Name):
+                for vv, ns in coords.items():
+                    if x.id in ns:
+                        return x.id
+                return None
+            return inline_coord(x)
         return sym.to_poly(e, atom_of=atom, opaque=True)
     for e in path.entries:
-        v = b.resolve(e.val, at=e.node, keep=tuple(cname) + (fi,))
+        v = b.resolve(e.val, at=e.node, keep=tuple(n for ns in coords.values() for n in ns) + tuple(leaf) + (fi,))
         coef, num, den = H.factors(v)
         den_ok = len(den) == 1 and isinstance(den[0], ast.Subscript) and isinstance(den[0].value, ast.Name) \
             and au.src(b.resolve(den[0].slice, at=e.node, keep=(fi,))) == fi and kinds.kind(den[0].value) == ("idx", "faces")
@@ -1099,6 +1161,10 @@ def _gradient_path(ctx, fn, V, F, loop, path, kinds):
             for x in num:
                 p = p * cpoly(x)
             out.setdefault(col, {})[part] = p
+    if len(origin) > 1:
+        und.append("local coordinates are taken relative to several origins")
+    missing = [v for v in verts if v not in coords and v not in origin]
+    cname = {n: (v, k) for v, ns in coords.items() for k, n in enumerate(ns)}
     # every atom of the coefficients must be a projected coordinate
     for v, parts in out.items():
         for p in parts.values():
@@ -1106,7 +1172,8 @@ def _gradient_path(ctx, fn, V, F, loop, path, kinds):
                 if a in cname:
                     continue
                 if a.startswith("⟨") and any(a[1:].startswith(g + "(") or ("." + g + "(") in a for g in GEOM_CALLS):
-                    bad.append(f"a local coordinate entering the coefficients is computed as `{a[1:-1][:60]}`, not as a projection in the basis of the connection")
+                    g = next(g for g in GEOM_CALLS if a[1:].startswith(g + "(") or ("." + g + "(") in a)
+                    bad.append(f"a local coordinate entering the coefficients is a length computed with `{g}(..)`, not a projection in the basis of the connection")
                 else:
                     und.append("a coefficient depends on a quantity that is not a projected coordinate of a vertex of the face")
     if missing and not bad:
@@ -1168,22 +1235,34 @@ def s4_gradient(ctx):
                       f"instead of twice the signed area times the identity",
                       "the gradient of an affine function must be its constant gradient: grad x = (1,0), grad y = (0,1) in the face basis",
                       note=f"{label}: exact on affine functions")
-            res.setdefault(label, []).append((out, verts, coords))
+            res.setdefault(label, []).append((out, verts, coords, origin))
     if not res:
         if not any(p.entries for _, ps in us for p in ps):
             ctx.undecided("C08-S4", site, "gradient: assembly loop(s) of the per-face coefficients not recognised", "")
         return
     if "complex" in res and "real" in res:
-        (o1, v1, c1), (o2, v2, c2) = res["complex"][0], res["real"][0]
-        ren = {}
-        for a, c in zip(v1, v2):
-            for k in range(2):
-                if a in c1 and c in c2:
-                    ren[c2[c][k]] = c1[a][k]
+        (o1, v1, c1, g1), (o2, v2, c2, g2) = res["complex"][0], res["real"][0]
 
-        def rn(p):
-            return Poly({tuple(sorted(ren.get(x, x) for x in k)): v for k, v in p.t.items()})
-        same = all(o1[a]["re"] == rn(o2[c]["re"]) and o1[a]["im"] == rn(o2[c]["im"]) for a, c in zip(v1, v2))
+        def canon(p, verts, coords, origin):
+            """the polynomial over canonical absolute coordinates X<k>, Y<k> of the k-th vertex (coordinates relative to an origin vertex are
+            differences of absolute ones)"""
+            o = next(iter(origin), None)
+            sub = {}
+            for k, v in enumerate(verts):
+                if v in coords:
+                    for ax, nm in zip("XY", coords[v]):
+                        q = Poly.atom(f"{ax}{k}")
+                        if o is not None:
+                            q = q - Poly.atom(f"{ax}{verts.index(o)}")
+                        sub[nm] = q
+            out = Poly()
+            for mono, c in p.t.items():
+                term = Poly.const(c)
+                for a in mono:
+                    term = term * sub.get(a, Poly.atom(a))
+                out = out + term
+            return out
+        same = all(canon(o1[a][part], v1, c1, g1) == canon(o2[c][part], v2, c2, g2) for a, c in zip(v1, v2) for part in ("re", "im"))
         ctx.check(same, "C08-S4", site, "gradient: the complex and the real branch disagree on a coefficient (Re <-> row 2iT, Im <-> row 2iT+1)",
                   "as_complex only changes the storage: G_real[2f] + i G_real[2f+1] must equal G_complex[f]", note="real / complex branches agree slot by slot")
     elif "as_complex" in au.params(fn):
